@@ -530,11 +530,17 @@ def workbook_stream(wb, opts=None, rng=None):
                    short_xl_unicode(u, any(x > 255 for x in u)))
     blen = sum(len(bound(0, s)) for s in wb["sheets"])
     base = len(pre) + blen + len(post)
-    offs, p = [], base
-    for sub in subs:
-        offs.append(p)
-        p += len(sub)
-    stream = pre + b"".join(bound(o, s) for o, s in zip(offs, wb["sheets"])) + post + b"".join(subs)
+    # the sheet substreams may be stored in any order: lbPlyPos says where each one starts (a
+    # deterministic permutation of the physical order for every third workbook with several sheets)
+    order = list(range(len(subs)))
+    if len(subs) > 1 and (base + len(subs)) % 3 == 0 and not opts.get("sheets_in_order"):
+        k = 1 + base % (len(subs) - 1)
+        order = order[k:] + order[:k]
+    offs, p = [0] * len(subs), base
+    for i in order:
+        offs[i] = p
+        p += len(subs[i])
+    stream = pre + b"".join(bound(o, s) for o, s in zip(offs, wb["sheets"])) + post + b"".join(subs[i] for i in order)
     if opts.get("pad_to") and len(stream) < opts["pad_to"]:
         stream += b"\0" * (opts["pad_to"] - len(stream))
     return stream, offs
